@@ -60,4 +60,32 @@ CHECKS = {
                 "every draw in [0,1), determinism; quads_to_tris winding and edges_of_faces once-each by decide on generated tables. Tie: lattice/float/sampling streams with cloned generators.",
         "note": COMMON_NOTE + "np.searchsorted modelled as 'number of leading entries <= x' on non-decreasing cumulative weights; rng.random values are passed to the model as data.",
     },
+    "C07": {
+        "text": "44 theorems: closest_point_of_line_segment is optimal over the whole segment with 0<=t<=1 (zero-length branch explicit); is_point_on_line_segment iff squared distance <= eps^2; "
+                "nearest: valid index, point = start + t*vector, first-minimal index, distance minimal over every point of every segment (ordered field for squared distances, R for distances), "
+                "stacked = map; flag logic: every requested output returned for all flag sets except ret_t_values alone (known finding: defect witness proved, full statement kept as a def and proved false of the model); "
+                "sub-path selection (sliced_at_points, aligned_along_subsegment) proved under explicit landing-segment hypotheses - partial. Tie: lattice/float/degenerate chains, all 8 flag subsets, exact-Fraction optimum oracle.",
+        "note": COMMON_NOTE + "Sub-path clause is partial (that a non-self-touching polyline implies the index hypotheses is not formalised; closing-edge/wrap original-index versions missing). np.argmin first-index rule modelled.",
+    },
+    "C09": {
+        "text": "37 theorems (all in full): edges/num_e/segments, flipped involution, rolled for any integer index incl. its edge mapping, sliced_at_indices (wrap / reversed -> ValueError), sectioned, join, "
+                "NumPy-insert semantics with a declarative characterisation and the repaired index maps for every index list in -num_v..num_v with repeats (new[orig_idx[j]] = old[j], new[ins_idx[m]] = points[m]), "
+                "index_of_vertex lowest match, apex first arg-max, bounding_box, aligned_with, and the error classes. Tie: random operation programs (each op applied to earlier results) with the whole "
+                "program replayed in the model; immutability / read-only flags / no aliasing observed after every op; exhaustive insertion multisets n<=4,k<=3.",
+        "note": COMMON_NOTE + "read-only flags, fresh-copy and aliasing observations are runtime tags, not theorems. Insertion indices below -num_v are outside the property and not generated.",
+    },
+    "C14": {
+        "text": "29 theorems (all in full, any ordered field, no unit-normal hypothesis): the coordinate-wise bounds test rejects iff the line parameter is outside [0,1] (axis-parallel equal coordinates included); "
+                "for endpoints strictly on opposite sides all four routines return a + (d_a/(d_a-d_b))(b-a), the unique point of the segment with signed distance 0, polyline entries one per crossing edge with ascending "
+                "edge indices; same side -> None / NaN row / no entry; exactly one endpoint on the plane -> that endpoint from the three segment routines; line form unique point / None for parallel; stacked = map. "
+                "Tie: exact lattice segments vs lattice planes (thorough: every ordered pair of {-2..2}^3 against 10 planes), float stream with margins.",
+        "note": COMMON_NOTE + "nan_to_num(inf) value passed as a parameter `big`; behaviour with both endpoints on the plane (outside the property) is stated as separate theorems.",
+    },
+    "C19": {
+        "text": "50 theorems (all in full): a Draft-7 interpreter for the subset used, run on the schema regenerated from schema.json: a document validates iff it is an object with exactly the two required keys, "
+                "isClosed boolean, every vector exactly three numbers (bool/str/null/arr/obj are not numbers) - both directions, hence every single-fault corruption is refused; deserialize never constructs from refused data; "
+                "round-half-even error <= half a unit of the last decimal; deserialize(serialize(p,d)) = rounded(p,d) for polylines (empty included) and planes; rounded/serialize succeed for every non-negative number of "
+                "decimals on a unit normal (|norm(round n) - 1| <= (sqrt3/2) 10^-d). Tie: real jsonschema + json.dumps/loads, decimals 0..12, all single-fault corruptions.",
+        "note": COMMON_NOTE + "json.dumps/loads and jsonschema are external (compared, not verified); np.around's float multiply/divide compared with tolerance, exact ties where the float product is inexact are dropped as undetermined.",
+    },
 }
